@@ -1,4 +1,6 @@
+use crate::error::ErrorData;
 use crate::interpreter::Interpreter;
+use crate::parser::{error::SyntaxError, Lexer, Token, TokenData};
 use crate::values::Value;
 use std::io;
 use std::io::Write;
@@ -6,16 +8,29 @@ use std::io::Write;
 use rustyline::error::ReadlineError;
 use rustyline::Editor;
 
+// The input is complete when the reader would not ask for more: every list opened by a token of
+// the text entered so far is closed. Parentheses inside strings, characters, |identifiers| and
+// comments are not tokens, so the reader itself is asked.
 fn check_bracket_closed(chars: impl Iterator<Item = char>) -> bool {
     let mut count = 0;
-    let mut in_comment = false;
-    for c in chars {
-        match (c, in_comment) {
-            ('(', false) => count += 1,
-            (')', false) => count -= 1,
-            (';', false) => in_comment = true,
-            ('\n', true) => in_comment = false,
-            _ => (),
+    for token in Lexer::from_char_stream(chars) {
+        match token {
+            Ok(Token { data, .. }) => match data {
+                TokenData::LeftParen | TokenData::VecConsIntro | TokenData::ByteVecConsIntro => {
+                    count += 1
+                }
+                TokenData::RightParen => count -= 1,
+                _ => (),
+            },
+            Err(error) => {
+                // an unterminated string or |identifier| needs more lines; any other lexical
+                // error is submitted so that the evaluator reports it
+                return !matches!(
+                    error.data,
+                    ErrorData::Syntax(SyntaxError::UnexpectedEnd)
+                        | ErrorData::Syntax(SyntaxError::ImcompleteQuotedIdent(_))
+                );
+            }
         }
     }
     count <= 0
